@@ -112,6 +112,16 @@ static void dump_ep(int id) {
 		fputc('}', vh_out);
 	}
 	fputs("]", vh_out);
+	/* constants of the hash-to-curve maps derived at curve installation */
+	{
+		ctx_t *ctx = core_get();
+		out_fpv("mapu", ctx->ep_map_u);
+		out_fpv("mapc0", ctx->ep_map_c[0]); out_fpv("mapc1", ctx->ep_map_c[1]); out_fpv("mapc2", ctx->ep_map_c[2]);
+		out_fpv("mapc3", ctx->ep_map_c[3]); out_fpv("mapc4", ctx->ep_map_c[4]);
+#ifdef EP_CTMAP
+		if (ep_curve_is_ctmap()) { out_fpv("isoa", ctx->ep_iso.a); out_fpv("isob", ctx->ep_iso.b); }
+#endif
+	}
 	if (ep_curve_is_endom()) {
 		const bn_st *v1 = ep_curve_get_v1(), *v2 = ep_curve_get_v2();
 		out_fpv("beta", ep_curve_get_beta());
@@ -139,6 +149,26 @@ static void dump_ep(int id) {
 			ep2_curve_get_cof(h); out_bnv("h2", h);
 			ep2_frb(g2, g2, 1); ep2_norm(g2, g2);
 			out_fp2v("frbx0", "frbx1", g2->x); out_fp2v("frby0", "frby1", g2->y);
+			/* twist points built from an x coordinate (in general OUTSIDE the order-r subgroup): untrusted
+			 * witnesses for the cofactor relation */
+			{
+				int cnt = 0; dig_t j;
+				fp2_t rhs; fp2_null(rhs); fp2_new(rhs);
+				fputs(",\"pts2\":[", vh_out);
+				for (j = 1; j < 200 && cnt < 2; j++) {
+					fp2_zero(g2->x); fp_set_dig(g2->x[0], j); fp_set_dig(g2->x[1], 1);
+					fp2_sqr(rhs, g2->x); fp2_add(rhs, rhs, ep2_curve_get_a()); fp2_mul(rhs, rhs, g2->x);
+					fp2_add(rhs, rhs, ep2_curve_get_b());
+					if (!fp2_is_zero(rhs) && fp2_srt(g2->y, rhs)) {
+						fprintf(vh_out, "%s{\"z\":0", cnt ? "," : "");
+						out_fp2v("x0", "x1", g2->x); out_fp2v("y0", "y1", g2->y);
+						fputc('}', vh_out);
+						cnt++;
+					}
+				}
+				fputs("]", vh_out);
+				fp2_free(rhs);
+			}
 			ep2_free(g2); fp2_free(e2);
 		}
 #endif
